@@ -78,6 +78,15 @@ def impl_rv_cases(payload):
             if code == 1:
                 return False
             shape = (3 * (n + c['extra']),) if c['shape'] == 'flat' else (n + c['extra'], 3)
+            layout = c.get('layout', 'contig')
+            if layout == 'cols' and c['shape'] != 'flat':
+                # a valid (N, 3) array that is NOT C-contiguous: three columns of a wider caller-owned buffer
+                return np.full((shape[0], 7), SENT, dtype=dt)[:, 2:5]
+            if layout == 'rec' and c['shape'] != 'flat':
+                # a field of a structured particle array
+                rec = np.zeros(shape[0], dtype=[('tag', 'i4'), ('x', dt, 3), ('w', 'f4')])
+                rec['x'] = SENT
+                return rec['x']
             return np.full(shape, SENT, dtype=dt)
         po, vo = mk(c['pc']), mk(c['vc'])
         try:
@@ -399,6 +408,12 @@ def rv_cases(ctx):
             box, exact = BOXES[rng.randrange(len(BOXES))]
             cases.append({'kind': 'selection', 'box': box, 'exact': exact, 'dtype': dt, 'shape': shape, 'pc': pc, 'vc': vc,
                           'extra': extra, 'words': [[rand_word(rng) for _ in range(3)] for _ in range(n)]})
+            if 2 in (pc, vc) and shape == '2d' and n > 0:
+                # supplied outputs that are valid (N, 3) arrays but not C-contiguous (column views, structured fields)
+                for layout in ('cols', 'rec'):
+                    cases.append({'kind': 'selection', 'box': box, 'exact': exact, 'dtype': dt, 'shape': shape, 'pc': pc,
+                                  'vc': vc, 'extra': extra, 'layout': layout,
+                                  'words': [[rand_word(rng) for _ in range(3)] for _ in range(n)]})
     # (b) field sweeps for the model: boundary words, a strided walk over the position and velocity fields, random words
     nrow = 240
     pool = list(BOUNDARY_WORDS)
